@@ -29,6 +29,14 @@ func zzText(i int, pfx string) string {
 		return t + " <U1 " + d + ">>\n."
 	case 8: // an explicitly, wrongly numbered ellipsis (warning)
 		return "S8F1\n<L <U1 " + d + "> ...[5] <L x ...[7]>>\n."
+	case 10: // 34 wrongly numbered ellipses: 34 warnings from one message
+		t := "S8F3\n<L"
+		for i := 0; i < 34; i++ {
+			t += " <L <U1 " + d + "> ...[" + rt.N("", 40+i)[1:] + "]>"
+		}
+		return t + ">\n."
+	case 11: // the names the other texts use, inside items of every type
+		return "S5F1 W\n<L <B x> <BOOLEAN y> <A s> <F4 q0> <I1 q1 " + d + "> <U1 q2> <F8 q3> <I8 q4> <U8 q5> <L <BOOLEAN q6 T> q7>>\n."
 	case 9: // k arbitrary bytes in front of a message (accepted alone only for some of them: white space, comments, ...)
 		return rt.String(pfx+"pre", rt.Param("k")) + "S1F2 H<-E\n<U1 " + d + ">\n."
 	case 5: // two messages in one text, second without direction on the same line as its terminator
